@@ -241,8 +241,9 @@ def eval_dot(nodes, edges, start, sp):
 # ------------------------------------------------------------ checks
 def as_form(rng, roots, declared='iterable'):
     """`roots` in one of the forms that the declared type of the
-    parameter admits: `descendants` takes an iterable, `to_nx` a set,
-    `dump` a list."""
+    parameter admits: `descendants` takes an iterable, `to_nx` an
+    "iterable of edges" (its docstring; annotated as a set), `dump` a
+    list."""
     roots = list(roots)
     if declared == 'list':
         return roots
@@ -294,7 +295,7 @@ def check_roots(ctx, A, ab, _a, _b, roots, rng):
         ctx.counters['traversals'] += 1
         del f
     # (c) networkx
-    g = _b.to_nx(bdd, as_form(rng, roots, 'set'))
+    g = _b.to_nx(bdd, as_form(rng, roots))
     ctx.counters['nx_graphs'] += 1
     if set(g.nodes) != reach:
         raise Violation('to_nx', 'wrong-node-set',
